@@ -23,7 +23,7 @@ RULE = ("LASFiles from seeded specs with integer-, float-, text- and NaN-valued 
         "{line, [], ()} x csv kwargs (delimiter, quoting, lineterminator), to_excel (workbook re-opened with openpyxl), df() and "
         "set_data_from_df(df()); depth views for every spelling in DEPTH_UNITS in upper/lower/mixed case on STRT/STOP/STEP and the "
         "first curve, spellings outside the sets, and conflicting pairs. distinct = distinct (exporter, options, header value type "
-        "mix, curve type mix); non-trivial = object with >= 2 curves and >= 1 numeric header value Added later: df round trips after deleting a duplicate, exports repeated after in-place edits, type-faithful df comparison (a float sample must come back as a number), infinities and float32 values in JSON.")
+        "mix, curve type mix); non-trivial = object with >= 2 curves and >= 1 numeric header value Added later: df round trips after deleting a duplicate, exports repeated after in-place edits, type-faithful df comparison (a float sample must come back as a number), infinities and float32 values in JSON. Hunter round 2: the json of every item and section (strict, values and samples), files without a ~Well section for the depth views, original mnemonics after the df round trip, LASFiles whose curves stack to a string array.")
 ASSUMPTIONS = [
     "JSON layout as lasio documents it: {'metadata': {section: {session mnemonic: value} | text}, 'data': {session mnemonic: [samples]}}",
     "an empty string written to a workbook cell is read back as an empty cell (None)",
